@@ -111,16 +111,20 @@ class _FakeOS:
 
     def write(self, fd, data):
         vt.respond(bytes(data))
+        fire_resize(3)  # the replies in flight are those of the old geometry
         return len(data)
 
     def read(self, fd, n):
         vt.deliver()
         d = bytes(vt.inq[:n])
         del vt.inq[:n]
+        fire_resize(4)  # while the reply is being read
         return d
 
     def get_terminal_size(self, fd=None):
-        return os.terminal_size(vt.win[:2])
+        r = os.terminal_size(vt.win[:2])
+        fire_resize(1)  # right after the size was read
+        return r
 
 
 class _FakeTermios:
@@ -148,11 +152,33 @@ class _FakeTermios:
 
 class _FakeFcntl:
     def ioctl(self, fd, req, buf):
-        if vt.term["ioctlFail"]:
-            raise OSError(25, "Inappropriate ioctl for device")
-        cols, rows, xpx, ypx = vt.win[:4]
-        buf[0], buf[1], buf[2], buf[3] = rows, cols, xpx, ypx
-        return 0
+        try:
+            if vt.term["ioctlFail"]:
+                raise OSError(25, "Inappropriate ioctl for device")
+            cols, rows, xpx, ypx = vt.win[:4]
+            buf[0], buf[1], buf[2], buf[3] = rows, cols, xpx, ypx
+            return 0
+        finally:
+            fire_resize(2)  # right after the ioctl
+
+
+ARMED = [None]  # (point, window): a resize that arrives DURING the running lookup, at that hook point
+
+
+def fire_resize(point):
+    a = ARMED[0]
+    if a is not None and (point is None or a[0] == point):
+        ARMED[0] = None
+        vt.win = tuple(a[1])
+
+
+def mix_win(p, w, w2):
+    """what a lookup started at window w measures when the resize to w2 fires at point p (Model.mixWin)"""
+    if p == 1:
+        return tuple(w[:2]) + tuple(w2[2:])
+    if p == 2:
+        return tuple(w[:4]) + tuple(w2[4:])
+    return tuple(w)
 
 
 def _fake_select(r, w, x, timeout=None):
@@ -265,6 +291,7 @@ def start_process():
 def reset_all():
     utils._cell_size_cache, utils._cell_size_lock, utils._tty_lock = ORIG_CC, ORIG_CC_LOCK, ORIG_TTY_LOCK
     _tsc_raise[0] = False
+    ARMED[0] = None
     utils._queries_enabled = True
     utils._swap_win_size = False
     utils._query_timeout = 0.1
@@ -327,6 +354,8 @@ def op_token(op) -> str:
     k = op[0]
     if k == "rs":
         return "rs " + " ".join(map(str, op[1]))
+    if k == "gcsr":
+        return "gcsr %d " % op[1] + " ".join(map(str, op[2]))
     if k == "sr":
         return "sr " + (op[1] if op[1] in ("fixed", "dynamic") else "lit %d" % op[2])
     if k == "acr":
@@ -373,6 +402,13 @@ def do_op(op):
             return "-"
         if k == "gcs":
             r = utils.get_cell_size()
+            return "none" if r is None else "size %d %d" % tuple(r)
+        if k == "gcsr":
+            ARMED[0] = (op[1], tuple(op[2]))
+            try:
+                r = utils.get_cell_size()
+            finally:
+                fire_resize(None)  # the point was not reached (hit, no query): the resize arrives right after
             return "none" if r is None else "size %d %d" % tuple(r)
         if k == "gcr":
             return "r " + f64hex(term_image.get_cell_ratio())
@@ -503,9 +539,11 @@ def check_history(d, recs, fresh=None):
                                                                  f"for the same argument tuple without an invalidation"))
         # -- the proviso: consecutive reads ------------------------------------------------------
         if "cr" in ev:
-            if last_read is not None and last_read[:2] == win[:2] and last_read != win:
+            # an overtaken lookup measured a mix of the two geometries, filed under the size it read first
+            rwin = mix_win(op[1], win, op[2]) if k == "gcsr" else win
+            if last_read is not None and last_read[:2] == rwin[:2] and last_read != rwin:
                 proviso = False  # a pixel-size change that nothing is required to notice: stop judging freshness
-            last_read = win
+            last_read = rwin
         # -- freshness of the per-terminal-size values ----------------------------------------
         if proviso and k == "gcs":
             want = {fr(win, swap, q)["gcs"]} | ({fr(win, swap, True)["gcs"]} if not q else set())
@@ -612,6 +650,8 @@ def check_history(d, recs, fresh=None):
                         del body_runs[key]
         elif k == "rs":
             cause = "resize"
+        elif k == "gcsr":
+            cause = "resize-during-lookup"
         elif k == "qoff":
             cause = "disable_queries" if q else cause
         if k == "pri":
@@ -829,11 +869,11 @@ TOGGLES = [("swon",), ("swoff",), ("qon",), ("qoff",)]
 
 def gen_history(rng):
     shape = rng.choice(["random", "random", "toggle-stale", "enable-discards", "aba", "ratio", "font-change",
-                        "support", "decorators", "toggle-coincident", "toggle-coincident"])
+                        "support", "decorators", "toggle-coincident", "toggle-coincident", "resize-in-lookup"])
     flavour = rng.choice([None, None, "kitty", "konsole", "iterm2"])
     term = gen_term(rng, flavour)
     px_mode = rng.choice(["ioctl", "ioctl", "none", "none", "tiny", "half"])
-    if shape == "toggle-coincident":
+    if shape in ("toggle-coincident", "resize-in-lookup"):
         # a *successful* cell size must get cached first: pixels from the ioctl, or from a query reply
         px_mode = rng.choice(["ioctl", "none"])
         if px_mode == "none":
@@ -886,6 +926,16 @@ def gen_history(rng):
                 ops += [rng.choice([("gnv",), ("gco", "0"), ("pr", 0), ("iok",)])]  # reads of other facts are fine
         ops += [{"q": ("qon",), "swon": ("swon",), "swoff": ("swoff",)}[tog]]
         ops += [rng.choice([("gcs",), ("gcr",), ("sr", "dynamic"), ("sr", "fixed")]), ("gcs",), ("gcr",)]
+    elif shape == "resize-in-lookup":
+        # a resize (cells and pixels) arrives DURING a lookup, at one of the hook points of the tty layer;
+        # afterwards the terminal is quiet and the cell size / DYNAMIC ratio are read again
+        if rng.random() < 0.5:
+            ops += [rng.choice([("gcs",), ("sr", "dynamic"), ("gcr",)])]
+        if rng.random() < 0.3:
+            ops += [rng.choice([("qoff",), ("swon",)])]
+        for _ in range(rng.randrange(1, 3)):
+            ops += [("gcsr", rng.choice([1, 1, 2, 2, 3, 4]), win_for(fresh_px=rng.random() < 0.2))]
+            ops += [("gcs",), rng.choice([("gcr",), ("sr", "dynamic"), ("sr", "fixed"), ("gcs",)]), ("gcr",)]
     elif shape == "enable-discards":
         ops += [("qoff",)] + [rng.choice(GETS + [some_ratio()]) for _ in range(rng.randrange(1, 6))]
         ops += [("qon",)] + [rng.choice(GETS + [some_ratio()]) for _ in range(rng.randrange(1, 8))]
@@ -929,8 +979,10 @@ def gen_history(rng):
                 ops.append(some_ratio())
             elif r < 0.96:
                 ops.append(("acr", rng.choice([None, True, False])))
-            elif r < 0.98:
+            elif r < 0.975:
                 ops.append(rng.choice([("tsci",), ("pri",), ("tscr",)]))
+            elif r < 0.99:
+                ops.append(("gcsr", rng.choice([1, 2, 3, 4]), win_for(fresh_px=rng.random() < 0.12)))
             else:
                 ops.append(("sp",))
     # a subprocess started early (the cache moves into a shared Array): everything after must still hold
@@ -954,6 +1006,8 @@ def norm_data(d):
         o = list(o)
         if o[0] == "rs":
             o[1] = tuple(o[1])
+        if o[0] == "gcsr":
+            o[2] = tuple(o[2])
         ops.append(tuple(o))
     return dict(term=t, win=tuple(d["win"]), ops=ops)
 
@@ -968,6 +1022,29 @@ def _consts(code):
         if hasattr(c, "co_consts"):
             out += _consts(c)
     return out
+
+
+def store_key_is_first_read():
+    """AST of get_cell_size: `_cell_size_cache[:] = <key> + cell_size` — is <key> the name bound (once) to the
+    `get_terminal_size()` read at the start of the lookup, rather than a new read?"""
+    import ast
+    import inspect
+    import textwrap
+
+    tree = ast.parse(textwrap.dedent(inspect.getsource(_real_gcs.__wrapped__ if hasattr(_real_gcs, "__wrapped__") else _real_gcs)))
+    fn = [n for n in ast.walk(tree) if isinstance(n, ast.FunctionDef) and n.name == "get_cell_size"][0]
+    stores = [n for n in ast.walk(fn) if isinstance(n, ast.Assign) and any(
+        isinstance(t, ast.Subscript) and "_cell_size_cache" in ast.unparse(t.value) for t in n.targets)]
+    if len(stores) != 1 or not isinstance(stores[0].value, ast.BinOp):
+        raise RuntimeError("store of _cell_size_cache not found in get_cell_size")
+    key = stores[0].value.left
+    if not isinstance(key, ast.Name):
+        return False
+    binds = [n for n in ast.walk(fn) if isinstance(n, ast.Assign) and any(
+        isinstance(t, ast.Name) and t.id == key.id for t in n.targets)]
+    reads = [n for n in ast.walk(fn) if isinstance(n, ast.Call) and ast.unparse(n.func).endswith("get_terminal_size")]
+    return (len(binds) == 1 and isinstance(binds[0].value, ast.Call)
+            and ast.unparse(binds[0].value.func).endswith("get_terminal_size") and len(reads) == 1)
 
 
 FLAG_NAMES = ("_swap_win_size", "_queries_enabled")
@@ -1139,7 +1216,7 @@ class C15(Property):
         "version parts handed to int() are plain decimal digit strings or non-numeric",
         "threading.RLock is a correct re-entrant lock",
     ]
-    quick_cases = 9000
+    quick_cases = 7000
     thorough_cases = 120000
     rule = ("a case is one operation history (or one forced thread schedule) generated from the PRNG; it is non-trivial "
             "when at least one memoized value is read after a state change (resize/toggle/invalidate); distinct by the "
@@ -1218,6 +1295,7 @@ class C15(Property):
             f"def enableQueriesInvalidates : List String := [{', '.join(chr(34) + n + chr(34) for n in inval)}]\n"
             f"def initAcr : Option Bool := {lopt(eval(acr0[0].split('=')[1]) if acr0 else 'missing')}\n"
             f"def initSupported : Option Bool := {lopt(sup0)}\n"
+            f"def storeKeyIsFirstRead : Bool := {lb(store_key_is_first_read())}\n"
             f"def swapOnSteps : List Nat := {toggle_steps(ti.enable_win_size_swap)}\n"
             f"def swapOffSteps : List Nat := {toggle_steps(ti.disable_win_size_swap)}\n"
             f"def qOnSteps : List Nat := {toggle_steps(ti.enable_queries)}\n"
@@ -1254,7 +1332,7 @@ class C15(Property):
                 changed = False
                 nt = False
                 for o in ops:
-                    if o in ("rs", "swon", "swoff", "qon", "qoff", "tsci", "pri", "sr", "acr", "sp", "tscr"):
+                    if o in ("rs", "swon", "swoff", "qon", "qoff", "tsci", "pri", "sr", "acr", "sp", "tscr", "gcsr"):
                         changed = True
                     elif changed:
                         nt = True
@@ -1337,6 +1415,22 @@ class C15(Property):
                 n = int(name != "swoff")
                 f.case = Case("race %d some %d %d %s 0" % (n, 1 - n, len(steps), " ".join(map(str, steps))), dict(toggle=name, k=0))
                 out.append(f)
+        if out:
+            return out
+        # targeted: a resize in cells and pixels arriving during a lookup, at every hook point, both paths
+        rterm = gen_term(random.Random(7), "kitty")
+        rterm.update(ioctlFail=False, ansCell=True, ansArea=True, termux=False, da1=True)
+        for w0, w1 in (((80, 30, 800, 600, 10, 20, 800, 600), (100, 40, 1200, 1000, 12, 25, 1200, 1000)),
+                       ((80, 30, 0, 0, 10, 20, 800, 600), (100, 40, 0, 0, 12, 25, 1200, 1000))):
+            for pt in (1, 2, 3, 4):
+                for pre in ([], [("gcs",), ("rs", (90, 35, 0, 0, 9, 18, 810, 630))]):
+                    ops = pre + [("gcsr", pt, w1), ("gcs",), ("sr", "dynamic"), ("gcr",)]
+                    d = dict(term=rterm, win=w0, ops=ops)
+                    for f in check_history(d, run_history(d)):
+                        if f.key not in seen:
+                            seen.add(f.key)
+                            f.case = Case(history_line(d), dict(term=rterm, win=list(w0), ops=[list(o) for o in ops]))
+                            out.append(f)
         if out:
             return out
         # targeted: a pixel-size change at unchanged cols/rows that coincides with an effective toggle
